@@ -685,19 +685,50 @@ class AgainstLibxc:
             return Result(UNDECIDED, backend="native", detail="PySCF (Libxc) is not importable")
         N = 4000 if tier == "quick" else 40000
         worst, where = self.deviation(seed, N)
-        if worst > 1e-8:
+        if worst > self.tol():
             wit = dict(seed=seed, N=N)
+            if self.f in THERMAL and self.Nspin == 2:
+                # fingerprint of the deviation (two significant digits at six fixed points): a recorded finding about THIS discrepancy does not cover another one
+                wit["deviation_profile"] = self.profile()
             return Result(REFUTED, backend="native-vs-libxc", witness=wit, replayed=True, replay_info=where,
                           detail=f"{self.f} (Nspin={self.Nspin}) deviates from Libxc id {TWINS[self.f]} by {worst:.2e} (relative) in {where['quantity']} at n_spin={where['n_spin']}")
         return Result(BOUNDED_OK, backend="native-vs-libxc", detail=f"bounded: {N} points, n in [1e-8, 1e3], |zeta| up to 1 - 1e-9, independent gradient directions, s in [1e-2, 50]: max relative deviation {worst:.1e}")
 
+    def tol(self):
+        return 2e-6 if self.f in THERMAL else 1e-8
+
+    def profile(self):
+        """Relative deviation of exc and of the two potentials from Libxc at six fixed (n, zeta), two significant digits."""
+        import eminus
+        from eminus.extras.libxc import pyscf_functional
+        from eminus.xc.utils import get_xc
+
+        eminus.config.backend = "numpy"
+        out = []
+        for n, z in ((1e-2, 0.0), (1e-2, 0.3), (1.0, 0.3), (1.0, 0.9), (100.0, -0.6), (1e-4, 0.9)):
+            n_spin = np.array([[n * (1 + z) / 2], [n * (1 - z) / 2]])
+            a = get_xc([self.f, "mock_xc"], n_spin, 2)
+            b = pyscf_functional(TWINS[self.f], n_spin, 2, None, None, None)
+            d = [abs(float(np.asarray(a[0])[0] - np.asarray(b[0])[0]) / float(np.asarray(b[0])[0]))]
+            d += [abs(float((np.asarray(a[1])[i, 0] - np.asarray(b[1])[i, 0]) / np.asarray(b[1])[i, 0])) for i in range(2)]
+            out.append(f"n={n:g},zeta={z:g}:" + "/".join("<1e-12" if x < 1e-12 else f"{x:.1e}" for x in d))
+        return "; ".join(out)
+
     def replay(self, wit):
         worst, where = self.deviation(wit["seed"], wit["N"])
-        return bool(worst > 1e-8), where
+        return bool(worst > self.tol()), where
 
+
+# the finite-temperature LDAs (evaluated at their default temperature T = 0): the two implementations agree to 1e-9 .. 1e-12 for n >= 1e-6 and to 5e-7 at
+# n = 1e-8 (r_s ~ 300), for the spin-paired forms as well: tolerance 2e-6 instead of 1e-8 (measured on the pinned tree, not derived). corrKSDT has no
+# spin-polarised parametrisation.
+THERMAL = {"lda_xc_ksdt": "259", "lda_xc_corr_ksdt": "318", "lda_xc_gdsmfb": "577"}
+TWINS.update(THERMAL)
 
 for _f in TWINS:
     for _ns in (1, 2):
+        if _f == "lda_xc_corr_ksdt" and _ns == 2:
+            continue
         register(Obligation(name=f"C09.libxc_native.{_f}{'_spin' if _ns == 2 else ''}", prop=PROP, engine="B", bounded=True, run=AgainstLibxc(_f, _ns),
                             functions=[f"eminus.xc.{_f}:{_f}{'_spin' if _ns == 2 else ''}", "eminus.extras.libxc:pyscf_functional"], budget={"quick": 200, "thorough": 900},
                             doc=f"BOUNDED: {_f} (Nspin={_ns}) against Libxc id {TWINS[_f]} through PySCF: exc, vxc, vsigma over 11 orders of magnitude in n, strong polarisation, non-parallel gradients"))
@@ -715,7 +746,10 @@ class ScfInterchange:
         eminus.config.backend = "numpy"
         eminus.config.verbose = "critical"
         worst, where = 0.0, None
-        for xc_int, xc_lib, unres in (("pbe", ":gga_x_pbe,:gga_c_pbe", True), ("lda,pw", ":1,:12", False), ("pbesol", ":116,:133", True)):
+        # every built-in exchange together with a built-in correlation at least once (get_xc hands the same arrays to both parts)
+        for xc_int, xc_lib, unres in (("pbe", ":gga_x_pbe,:gga_c_pbe", True), ("lda,pw", ":1,:12", False), ("pbesol", ":116,:133", True),
+                                      ("chachiyo", ":298,:309", True), ("chachiyox,pbec", ":298,:130", True), ("lda,vwn", ":1,:7", True), ("lda,chachiyo", ":1,:287", False),
+                                      ("pbex,chachiyoc", ":101,:309", False)):
             out = []
             for xc in (xc_int, xc_lib):
                 at = Atoms("LiH", [[0.1, 0.2, 0.3], [0.3, 0.1, 3.2]], ecut=4, a=[[7.0, 0.3, 0.1], [0.2, 7.5, 0.4], [0.5, 0.1, 8.0]], unrestricted=unres)
@@ -738,7 +772,7 @@ class ScfInterchange:
         if worst > 1e-8:
             return Result(REFUTED, backend="native-vs-libxc", witness=dict(seed=seed), replayed=True, replay_info=where,
                           detail=f"SCF(xc='{where['xc']}') and SCF(xc='{where['bridge']}') differ at the same coefficients: {where}")
-        return Result(BOUNDED_OK, backend="native-vs-libxc", detail=f"bounded: LiH, triclinic cell, random coefficients: energy and gradient agree to {worst:.1e} (pbe / lda,pw / pbesol; polarised and unpolarised)")
+        return Result(BOUNDED_OK, backend="native-vs-libxc", detail=f"bounded: LiH, triclinic cell, random coefficients: energy and gradient agree to {worst:.1e} (eight exchange / correlation pairs of the built-ins vs their Libxc ids; polarised and unpolarised)")
 
     def replay(self, wit):
         worst, where = self.run_case(wit["seed"])
